@@ -227,6 +227,36 @@ def shard_entry(seed, count):
     return acc
 
 
+# ---------------------------------------------------------------------------------------------- entries caused by instructions inside an IT block
+# SVC / UDF / BKPT / SMC, a trapped WFI / WFE / coprocessor access, an aborting load - executed in every slot position of an IT block with a passing
+# condition, on every configuration (trap controls armed where there is a Hyp mode): whichever way the entry is taken (raised to the step loop, or
+# entered directly from inside execute()), the handler starts with ITSTATE = 0 and the SPSR holds the ITSTATE the architecture prescribes
+def _entry_it_tweak(rng, row, w, case):
+    from vf.props import c11
+    from vf.props.c05 import passing_flags
+    c11.entry_tweak(rng, row, w, case)
+    st_ = case['state']
+    it = (((st_['cpsr'] >> 10) & 0x3F) << 2) | ((st_['cpsr'] >> 25) & 3)
+    if it & 0xF and (it >> 4) < 14 and rng.random() < 0.8:
+        st_['cpsr'] = (st_['cpsr'] & 0x0FFFFFFF) | (passing_flags(rng, it >> 4) << 28)
+    if case['cfg'].get('have_virt_ext') and rng.random() < 0.6:
+        st_['scr'] = st_.get('scr', 0) | 1
+        if (st_['cpsr'] & 31) in (gen.MODES['mon'], gen.MODES['hyp']):
+            st_['cpsr'] = (st_['cpsr'] & ~31) | gen.MODES[rng.choice(('svc', 'usr', 'irq', 'sys'))]
+        st_['hstr'] = rng.choice((0xFFFF, rng.getrandbits(16)))
+
+
+def _entry_rows():
+    from vf.props import c11
+    return [r for r in c11.ENTRY_ROWS if e1prop.ROWS[r][0] != 'arm']
+
+
+ENTRY_IT_PLAN = e1prop.Plan('C08', _entry_rows(), cfgs=('v6', 'v7', 'v7-virt', 'v7-virt', 'v6-nosec'), tweak_case=_entry_it_tweak, hooked=(False, True),
+                            nontrivial=lambda res: res.status in ('undef', 'svc', 'smc', 'hyptrap', 'abort'),
+                            classify=lambda res, case: ['entry-inside-it-block:' + res.status] if res.status in ('undef', 'svc', 'smc', 'hyptrap', 'abort') else [],
+                            case_kw=lambda rng, row: {'mpu': False, 'mmu': False, 'code_base': 0x8000, 'it': rng.choice([x for x in gen.IT_STATES if x])})
+
+
 def run(ctx):
     ctx.rule = ('(1) exhaustive: all %d legal (firstcond, mask) pairs x 16 NZCV: IT followed by 1-4 16-bit flag-setting-form ALU / 32-bit MOV '
                 'instructions, then two unconditional flag-setting instructions; (2) Hypothesis-generated blocks whose slots come from a pool '
@@ -240,6 +270,7 @@ def run(ctx):
     tasks = [(shard_exhaustive, (i, 8, ctx.shard_seed(i))) for i in range(8)]
     tasks += [(shard_programs, (ctx.shard_seed(100 + i), ctx.n(1200, 40000))) for i in range(24)]
     tasks += [(shard_entry, (ctx.shard_seed(300 + i), ctx.n(1500, 30000))) for i in range(8)]
+    tasks += [(e1prop.shard, ('vf.props.c08:ENTRY_IT_PLAN', ctx.shard_seed(400 + i), ctx.n(300, 6000))) for i in range(8)]
     ctx.pmap(_dispatch, tasks)
     ctx.acc.exhaustive = True
     ctx.acc.extra['exhaustive_part'] = 'all legal (firstcond, mask) x NZCV start states'
@@ -253,5 +284,9 @@ def replay(case, bucket=None):
     if 'kind' in case and 'cfgname' in case:
         from vf.props import c11
         return c11.replay(case, bucket)
+    if case.get('steps', 1) == 1:
+        r = e1prop.replay(ENTRY_IT_PLAN, case)
+        if r:
+            return r
     res = diff.run(case)
     return [e1prop.sig(res.diffs)] if res.diffs else []
